@@ -33,6 +33,8 @@ def gen(rng, tier):
         c['cls'] = 'FourierOp'
         c['xdtype'] = 'complex'
         out.append(c)
+        if len(out) % 3 == 0:       # the same operator differentiated at a real-valued image (gradient = Re(A^H w))
+            out.append(dict(c, xdtype='real'))
     return out
 
 
@@ -64,10 +66,18 @@ def impl(c):
     base = opzoo.dtype_of(c) if c['cls'] != 'FourierOp' else torch.complex128
     real_only = not base.is_complex
     dt = base if (c['xdtype'] == 'complex' or real_only) else (torch.float64 if base == torch.complex128 else torch.float32)
-    if c['cls'] in ('FourierOp', 'FastFourierOp', 'WaveletOp', 'PCACompressionOp', 'CartesianSamplingOp', 'EinsumOp', 'SensitivityOp', 'DensityCompensationOp'):
-        dt = base  # these need complex input (complex buffers / FFT); mixed dtypes are exercised on the others
     g = torch.Generator().manual_seed(c['seed'])
     x = _rand(list(in_shape), g, dt).requires_grad_(True)
+    if dt != base:
+        # mixed dtypes (real input, complex operator): only where the forward itself accepts a real input (EinsumOp / PCACompressionOp with a
+        # complex matrix reject it in torch.einsum / matmul: then the complex input is used)
+        try:
+            with torch.no_grad():
+                op(x.detach())
+        except (RuntimeError, ValueError):    # (torchkbnufft: 'For real inputs, last dimension must be size 2')
+            dt = base
+            g = torch.Generator().manual_seed(c['seed'])
+            x = _rand(list(in_shape), g, dt).requires_grad_(True)
     (y,) = op(x)
     w = _rand(list(y.shape), g, y.dtype)
     res = {'nufft': bool(getattr(op, '_nufft_dims', [])), 'dt': str(dt), 'ydt': str(y.dtype)}
@@ -84,6 +94,8 @@ def impl(c):
         with torch.no_grad():
             Fd, _, _ = (opzoo.dense(op, in_shape, dt)[0], None, None)
         ref = torch.from_numpy(Fd.conj().T @ w.reshape(-1).to(torch.complex128).numpy()).reshape(x.shape)
+        if not x.is_complex():      # gradient with respect to a real variable: Re(A^H w)  (C05_real_input_gradient)
+            ref = ref.real.to(torch.complex128)
         res['first_dense'] = float((gx.detach().to(torch.complex128) - ref).abs().max()) / float(max(1.0, ref.abs().max()))
     res['gx_finite'] = bool(torch.isfinite(torch.view_as_real(gx.detach()) if gx.is_complex() else gx.detach()).all())
     # second order: d/dw Re<v, gx(w)> = A v (gx is linear in w)
